@@ -1,4 +1,4 @@
-(* The whole of read_record_buf with typed fields: NV.Bcf.Record.dec_record (frame, site head, the
+(* The whole of read_record_buf with typed fields: NV.Bcf.Record.dec_record_k (frame, site head, the
    walks over the INFO and FORMAT blocks) followed by what decoder/info/field/value.rs read_value
    and decoder/samples.rs read_samples do with each block: the header's (Number, Type) of the key
    picks the value decoder; GT is decoded as a genotype series; the per-sample rows are filled
@@ -110,7 +110,7 @@ Record trecord := {
 
 Definition dec_record_typed (strings contigs : smap) (ik : name -> option ikind)
   (fk : name -> option fkind) (hdr_samples : Z) (bs : list N) : rres trecord :=
-  match dec_record strings contigs hdr_samples bs with
+  match dec_record_k strings contigs hdr_samples bs with
   | None => RErr
   | Some (h, infos, fmts, _) =>
       let ns := Z.to_nat (h_n_sample h) in
